@@ -97,6 +97,7 @@ fn chain_scenario(stages: Vec<Stage>, n: usize, batch: BatchMode, cap: usize, p:
         nontrivial: n >= 2,
         unbounded: false,
         loop_body: false,
+        sometimes: vec![],
     }
 }
 
